@@ -613,6 +613,56 @@ fn e5_cases() -> Vec<(String, Vec<u8>)> {
     v
 }
 
+// ---------------------------------------------------------------- through the daemon's receive path
+
+/// Every prefix of every corpus packet is handed to a live daemon (browse open, accept_unsolicited
+/// on, so that whatever decodes is cached).  A prefix the independent parser rejects must leave the
+/// cache as it was: the daemon may only ever decode the bytes that were received, not what its
+/// receive buffer holds behind them.
+fn run_receive_path(pk: usize, trace: bool) -> CaseResult {
+    use crate::scn::*;
+    use crate::sim::*;
+    let mut res = CaseResult::default();
+    let p = corpus().swap_remove(pk);
+    let mut w = World::one(lay_v4());
+    w.trace = trace;
+    w.ds[0].h.set_ip_check_interval(0).unwrap();
+    w.ds[0].h.accept_unsolicited(true).unwrap();
+    let rx = w.ds[0].h.browse("_t._tcp.local.").unwrap();
+    let ch = w.add_browse(0, rx);
+    w.poke(0);
+    const KEYS: [&str; 6] = ["cached-ptr", "cached-srv", "cached-txt", "cached-addr", "cached-nsec", "cached-subtype"];
+    let snap = |w: &mut World| -> Vec<i64> { let m = w.metrics(0).unwrap_or_default(); KEYS.iter().map(|k| m.get(*k).copied().unwrap_or(0)).collect() };
+    for cut in 0..p.len() {
+        let prefix = p[..cut].to_vec();
+        if indep::parse(&prefix).is_ok() {
+            continue; // a prefix that is a message of its own
+        }
+        let before = snap(&mut w);
+        let ev_before = bevs(&w, 0, ch, 0).len();
+        w.deliver(0, IF0, PEER0, prefix.clone());
+        res.transitions += 1;
+        res.count("rejected_prefixes_delivered", 1);
+        let after = snap(&mut w);
+        let ev_after = bevs(&w, 0, ch, 0).len();
+        if after != before || ev_after != ev_before {
+            res.viols.push(viol(
+                "C01|receive-path|records-taken-from-a-datagram-that-does-not-hold-them",
+                format!("corpus packet {pk} cut to {cut} of {} bytes ({}): cache {:?} -> {:?}, browse events {} -> {}", p.len(), truncate(&hex(&prefix), 160), before, after, ev_before, ev_after),
+            ));
+            break;
+        }
+        if let Some(f) = daemon_fault(&w, 0) {
+            res.viols.push(viol(format!("C01|receive-path|daemon-fault|{}", panic_sig(&f)), format!("corpus packet {pk} cut to {cut} bytes: {f}")));
+            break;
+        }
+    }
+    res.nontrivial = true;
+    res.outcome = outcome_hash(&w.log);
+    res.states = final_states(&w);
+    res
+}
+
 pub fn check(tier: &str) -> i32 {
     let mut rep = Report::new("C01", tier, "exploration");
     let thorough = rep.thorough();
@@ -842,5 +892,15 @@ pub fn check(tier: &str) -> i32 {
     rep.require("E1-strings-after-header", "rejected");
     rep.require("E2-one-record-grammar", "both_accept");
     rep.require("E4-mutation-neighbourhood", "both_accept");
+    let ncorp = corpus().len() as u64;
+    let rp = FnPart {
+        name: "S-receive-path-prefixes".into(),
+        rule: "every corpus packet cut to every shorter length, delivered to a live daemon (browse open, accept_unsolicited on): a prefix the independent parser rejects must change neither the cache nor the browse channel, and the daemon must survive".into(),
+        n: ncorp,
+        describe: Box::new(|i| format!("corpus packet {i}")),
+        run: Box::new(|i, tr| run_receive_path(i as usize, tr)),
+    };
+    rep.run_part(&rp, Duration::from_secs(120));
+    rep.require("S-receive-path-prefixes", "rejected_prefixes_delivered");
     rep.finish()
 }
